@@ -78,9 +78,39 @@ def loss_cases(rnd, quick):
     return scns
 
 
+def max_capacity_part(chk, rnd):
+    """the largest capacity the search can return (2047): a 512 KiB slot, exactly 2047 data fragments lost.  The extracted model
+       needs ~l^3 steps, so this runs on the release build of the crate against the oracle alone."""
+    scns = []
+    for _ in range(1 if chk.quick() else 3):
+        slot, blk, sz = 524288, 4096, rnd.choice([8, 4, 16])
+        L = session.max_l(slot, sz)
+        n = L + rnd.randint(3, 60)
+        img = ts004.make_image(rnd, n, sz)
+        lost = sorted(rnd.sample(range(1, n + 1), L))
+        seq = [i for i in range(1, n + 1) if i not in set(lost)] + list(range(n + 1, n + 1 + L + 14))
+        s = session.Scn(4, slot, blk)
+        s.meta = dict(n=n, sz=sz, cap=L, img=img, seq=seq, mode="L", lost=lost, ffr=False, kind="loss")
+        s.meta["fb_before"] = s.add("fb"); s.meta["fbvalid_before"] = s.add("validfb")
+        s.meta["start_op"] = s.add("start %d %d" % (sz, n))
+        s.meta["seg_ops"] = [s.add(session.seg_op(img, n, sz, i, False)) for i in seq]
+        s.meta["done_op"] = s.add("done"); s.meta["bl_op"] = s.add("bl"); s.meta["valid_op"] = s.add("validbl")
+        s.meta["dump_op"] = s.add("dumpbl %x %d" % (session.DRO, n * sz)); s.meta["fb_op"] = s.add("fb"); s.meta["fbvalid_after"] = s.add("validfb")
+        s.meta["hdrs_op"] = s.add("hdrs")
+        scns.append(s)
+    lines, impl, outs = session.run(chk, scns, variant="matrix-rel", stream="session-max-capacity", with_model=False)
+    for s, l, raw, out in zip(scns, lines, impl, outs):
+        if len(out) != len(s.ops):
+            chk.failures.append(core.Failure("harness produced no / truncated result (2047 lost fragments on a 512 KiB slot)", "session", "matrix-rel", l[:3000], raw[-400:], key="crash")); break
+        for m_ in session.oracle_delivery(s, out)[:1]:
+            chk.failures.append(core.Failure("with %d lost fragments (the capacity of a 512 KiB slot): %s" % (len(s.meta["lost"]), m_), "session", "matrix-rel", l[:3000] + " ...", raw[:1500], key="c15"))
+    chk.note_cases("session-max-capacity[matrix-rel, oracle only]", [l[:200] for l in lines], [l[:200] for l in lines], sample_n=0, dist={"L": [s.meta["cap"] for s in scns]})
+
+
 def run(chk):
     chk.prove()
     rnd = random.Random(chk.seed)
+    max_capacity_part(chk, random.Random(chk.seed + 15))
     scns = geometry_cases(rnd, chk.quick()) + capacity_cases(rnd, chk.quick()) + loss_cases(rnd, chk.quick())
     lines, impl, outs = session.run(chk, scns, stream="session-geometry")
     nt, dist = [], {"geometry": 0, "accepted": 0, "rejected": 0, "capacity": 0, "loss_L": 0, "loss_L+1": 0, "L_values": {}}
@@ -126,5 +156,5 @@ def run(chk):
     chk.note_cases("session-geometry", lines, nt, sample_n=2, dist=dist)
     return chk.finish(level="proof",
         rule="geometry: (size, count) over u32 boundary classes x products around the slot limit x slot sizes 17664 B .. 64 KiB (thorough: 256 KiB, 1 MiB); capacity: every size 1..256 at several slot sizes incl. 256 KiB; "
-             "loss: exactly L and L+1 data fragments missing (L = persisted capacity, 1 <= L <= ~70; thorough up to several hundred), late data bringing the count down; non-trivial = accepted geometries and loss scenarios; distinct by case text",
+             "loss: exactly L and L+1 data fragments missing (L = persisted capacity, 1 <= L <= ~70; thorough up to several hundred), late data bringing the count down; max-capacity: a 512 KiB slot whose capacity is the maximum 2047, exactly 2047 fragments lost (release build, oracle only - the model needs ~l^3 steps); non-trivial = accepted geometries and loss scenarios; distinct by case text",
         trusted=core.TRUSTED_COMMON + ["C15: slot sizes below 4 GiB (the code compares in u32)"])
